@@ -40,7 +40,7 @@ pub fn run_check(replay: Option<Value>) -> i32 {
         dim("span", &spans),
         dim("jacobian", &["user", "finite-difference"]),
         dim("events", &["none", "three event functions", "two roots 1e-6*span apart, the second terminal", "two roots 1e-6*span apart, the first terminal"]),
-        dim("first_step", &["auto", "given", "given, half the span (rejected at once: the first output stays pending)"]),
+        dim("first_step", &["auto", "given", "given, half the span (rejected at once: the first output stays pending)", "given and larger than the max_step given with it", "auto under a max_step"]),
     ];
     lattice(&mut rep, "reflect", &dims, only.as_deref(), |key, idx| {
         let m = M6[idx[0]];
@@ -63,6 +63,15 @@ pub fn run_check(replay: Option<Value>) -> i32 {
                 return None;
             }
             c.first_step = Some(span / 2.0);
+        }
+        if idx[6] >= 3 {
+            if m == Method::RK4 || idx[5] >= 2 {
+                return None;
+            }
+            c.max_step = Some(span / 80.0);
+            if idx[6] == 3 {
+                c.first_step = Some(span / 20.0);
+            }
         }
         if idx[5] == 1 {
             c.events = vec![EventSpec::new(EvKind::Y(0, 0.7 * p.y0[0])), EventSpec::new(EvKind::Cos(2.0)).dir(Direction::Positive), EventSpec::new(EvKind::T(x0 + 0.37 * span))];
